@@ -219,8 +219,8 @@ def run(ctx):
             expect = {vn: vv for vn, vv in d["variants"]}
             for al, tgt in d["aliases"]:
                 if tgt not in valof:
-                    ctx.ob("%s/alias/%s" % (name, al), False, "alias of unknown variant %s" % tgt)
-                    ctx.violation("%s::alias/dangling" % name, "alias %s -> %s" % (al, tgt), None)
+                    # cannot compile if true: the token reader missed the variant
+                    ctx.ob("%s/alias/%s" % (name, al), None, "alias of a variant the token reader did not find: %s" % tgt)
                     continue
                 expect[al] = valof[tgt]
             names = sorted(expect)
@@ -271,8 +271,15 @@ def run(ctx):
     for name in sorted(set(enums) | set(snap["enums"])):
         cur, old = enums.get(name), snap["enums"].get(name)
         if cur is None or old is None:
-            ctx.ob("snapshot/enum/%s" % name, False, "enum %s" % ("missing" if cur is None else "not in the pinned grammar"))
-            ctx.violation("snapshot/enum-presence/%s" % name, "enumeration %s %s" % (name, "is missing" if cur is None else "is not in the pinned grammar"), None)
+            if cur is None:
+                real = rp.ask("from_u32 %s 0" % name)
+                if "error" in real:
+                    ctx.ob("snapshot/enum/%s" % name, False, "enum missing")
+                    ctx.violation("snapshot/enum-presence/%s" % name, "enumeration %s of the pinned grammar is missing from the spirv crate" % name, {"cmd": "from_u32 %s 0" % name, "real": real})
+                else:
+                    ctx.ob("snapshot/enum/%s" % name, None, "the token reader does not find enum %s but the compiled crate has it" % name)
+            else:
+                ctx.ob("snapshot/enum/%s" % name, None, "enum %s is not in the pinned grammar snapshot (a new declaration: outside what the snapshot can judge)" % name)
             continue
         a = {n: v for n, v in cur["variants"]}
         b = {n: v for n, v in old["variants"]}
